@@ -18,6 +18,7 @@
  * FIFO pool, joiner released, destructor of a work-unit-local key = "freed":
  * named at free and not before, unnamed at completion, exactly once). */
 #include "common.h"
+#include "c12_asan.h"
 
 enum { K_ULT, K_ULTM, K_TASK };
 enum { M_HIST, M_REV3 };
@@ -159,7 +160,8 @@ static void model_terminate(unit_t *u, int by_cancel)
 {
     int slot = (int)(u - U);
     if (u->joiner >= 0) {
-        U[u->joiner].ms = MS_READY; /* woken (pushed or handed off to) */
+        if (U[u->joiner].ms == MS_WAITING)
+            U[u->joiner].ms = MS_READY; /* woken (pushed or handed off to) */
         u->joiner = -1;
     }
     /* a unit cancelled while it was waiting in a join gives up the join */
@@ -196,11 +198,10 @@ static int can_sample(unit_t *u)
     return 1;
 }
 
-static void sample_all(const char *where)
+/* a READY/waiting unit with a pending cancel request may have been terminated
+ * by the scheduler in the meantime (nobody logs that): catch up */
+static void reconcile(int *st)
 {
-    int st[2] = { -1, -1 };
-    /* pass 1: a READY unit with a pending cancel request may have been
-     * terminated by the scheduler in the meantime (nobody logs that) */
     for (int i = 0; i < 2; i++) {
         unit_t *u = &U[i];
         /* an unnamed READY unit with a pending cancel: its handle is dead;
@@ -215,6 +216,15 @@ static void sample_all(const char *where)
             st[i] == ABT_THREAD_STATE_TERMINATED)
             model_terminate(u, 1);
     }
+}
+
+static void sample_all(const char *where)
+{
+    int st[2] = { -1, -1 };
+    /* histories such as revive_to;return;revive_to;return are periodic in the
+     * hooked state; the progress is in plain variables: tell the engine */
+    abtmc_progress();
+    reconcile(st);
     for (int i = 0; i < 2; i++) {
         unit_t *u = &U[i];
         if (st[i] < 0)
@@ -264,12 +274,10 @@ static void slice_begin(unit_t *u, const char *where)
 {
     int slot = (int)(u - U);
     /* the unit we were blocked on may have been cancelled silently */
-    if (u->ms == MS_WAITING)
-        for (int i = 0; i < 2; i++)
-            if (U[i].joiner == slot && can_sample(&U[i]) &&
-                U[i].ms == MS_READY && U[i].cancel_req &&
-                get_state(&U[i]) == ABT_THREAD_STATE_TERMINATED)
-                model_terminate(&U[i], 1);
+    if (u->ms == MS_WAITING) {
+        int st[2] = { -1, -1 };
+        reconcile(st);
+    }
     if (u->cancel_req) {
         /* a unit that was BLOCKED when the request arrived may be resumed by
          * a direct hand-off (no scheduler involved) and then runs until its
@@ -417,8 +425,10 @@ static void unit_body(void *arg, unit_fn_t self_fn)
                             "join_returned_early",
                             "ABT_thread_join returned to unit %d, target not "
                             "TERMINATED", slot);
-                if (o->ms == MS_READY && o->cancel_req)
-                    model_terminate(o, 1);
+                {
+                    int st[2] = { -1, -1 };
+                    reconcile(st);
+                }
                 abtmc_check(o->ms == MS_TERM, "join_returned_early",
                             "unit %d joined unit %d which never finished or "
                             "was cancelled (model state %d)",
@@ -430,8 +440,10 @@ static void unit_body(void *arg, unit_fn_t self_fn)
         }
     }
 }
-static void unit_fn_a(void *arg) { unit_body(arg, unit_fn_a); }
-static void unit_fn_b(void *arg) { unit_body(arg, unit_fn_b); }
+static void unit_real_a(void *arg) { unit_body(arg, unit_fn_a); }
+static void unit_real_b(void *arg) { unit_body(arg, unit_fn_b); }
+C12_UNIT_ENTRY(unit_fn_a, unit_real_a)
+C12_UNIT_ENTRY(unit_fn_b, unit_real_b)
 
 /* --------------------------------------------------------- primary side */
 
@@ -480,8 +492,10 @@ static void after_wait(unit_t *u, const char *what)
     abtmc_check(s == ABT_THREAD_STATE_TERMINATED, "join_returned_early",
                 "%s(unit %d.%d) returned while the unit is %s", what, slot,
                 u->gen, sname(s));
-    if (u->ms == MS_READY && u->cancel_req)
-        model_terminate(u, 1);
+    {
+        int st[2] = { -1, -1 };
+        reconcile(st);
+    }
     abtmc_check(u->ms == MS_TERM, "join_returned_early",
                 "%s(unit %d.%d) returned but the unit never finished or was "
                 "cancelled (model state %d)",
@@ -513,7 +527,12 @@ static void p_free(int slot)
     else
         OK(ABT_thread_free(&u->h));
     u->being_joined = 0;
-    if (u->ms == MS_READY && u->cancel_req)
+    u->hknown = 0; /* the handle is dead now */
+    {
+        int st[2] = { -1, -1 };
+        reconcile(st); /* the other unit */
+    }
+    if ((u->ms == MS_READY || u->ms == MS_WAITING) && u->cancel_req)
         model_terminate(u, 1);
     abtmc_check(u->ms == MS_TERM, "free_returned_early",
                 "ABT_thread_free(unit %d.%d) returned but the unit never "
